@@ -410,7 +410,7 @@ def describe(tier):
         'bounds': '<=3 rules, <=5 predicates of arity <=2; integers unbounded; all classical interpretations '
                   '(solver-quantified); the stable-model link itself (completion = stable models for tight programs) is the '
                   'cited theorem and is not re-proved in the quick tier',
-        'outside': 'programs beyond the pool; finite-domain stable-model re-check (planned for the thorough tier); unknown '
+        'outside': 'programs beyond the pool; the stable-model link is re-checked on finite structures only and for arithmetic-free programs; unknown '
                    'solver answers',
         'assumptions': ['reference Clark completion in av/c04.py ref_completion (written from the definition, on the rule '
                         'formulas of the real tau* theory)', 'classical semantics of av/sem.py', 'z3 verdicts'],
